@@ -374,6 +374,17 @@ def run_shutdown(case: dict) -> dict:
                     raise Boom("on_shutdown")
 
                 app.on_shutdown.append(bad_hook)
+            if case.get("hook_sleep") is not None:
+                async def slow_hook(app_):
+                    # e.g. telling websocket clients to go away: takes a while, and the loop runs meanwhile
+                    ev.append((loop.time(), "hook-start", "on_shutdown"))
+                    for _ in range(12):
+                        await asyncio.sleep(0)
+                    if case["hook_sleep"]:
+                        await asyncio.sleep(case["hook_sleep"])
+                    ev.append((loop.time(), "hook-end", "on_shutdown"))
+
+                app.on_shutdown.insert(0, slow_hook)
             runner = web.AppRunner(app, shutdown_timeout=T, access_log=None)
             await runner.setup()
             server = runner.server
@@ -448,6 +459,7 @@ def check_shutdown(rec: Rec, case: dict) -> None:
     out = run_shutdown(case)
     T = case["T"]
     t0 = out["t0"]
+    hook = case.get("hook_sleep") or 0.0  # the waiting for handlers starts when the on_shutdown hooks are through
     ev = out["ev"]
     desc = f"events={ev}; t0={t0} end={out['t_end']}; case={case}"
     running = False
@@ -478,7 +490,7 @@ def check_shutdown(rec: Rec, case: dict) -> None:
             ends = [e[0] for e in finished + cancelled]
             if not ends:
                 raise Violation("handler-never-ended", f"handler of connection {i} neither finished nor was cancelled; {desc}")
-            limit = t0 + 2 * ceil_bound(T) + 1e-6
+            limit = t0 + hook + 2 * ceil_bound(T) + 1e-6
             if min(ends) > limit:
                 raise Violation("handler-outlives-2T", f"handler of connection {i} ended at {min(ends)}, later than shutdown start {t0} + 2*{ceil_bound(T)}; {desc}")
     late = [e for e in ev if e[1] == "handler-start" and e[2].startswith("/late")]
@@ -493,11 +505,11 @@ def check_shutdown(rec: Rec, case: dict) -> None:
         raise Violation("connection-open-after-cleanup", f"connections {[i for i, c in enumerate(out['final_closed']) if not c]} are still open after cleanup() returned; {desc}")
     if any(out["handler_alive"]):
         raise Violation("handler-alive-after-cleanup", f"a handler task is still alive after cleanup() returned; {desc}")
-    if out["t_end"] > t0 + 2 * ceil_bound(T) + 1e-6:
+    if out["t_end"] > t0 + hook + 2 * ceil_bound(T) + 1e-6:
         raise Violation("cleanup-exceeds-2T", f"cleanup() took {out['t_end'] - t0:.3f}s, more than twice the shutdown timeout {T}; {desc}")
     if isinstance(out["cleanup_exc"], BaseException) and not (case.get("hook_raises") and isinstance(out["cleanup_exc"], Boom)):
         raise Violation(hyp.exc_key(out["cleanup_exc"], "cleanup-raised"), f"runner.cleanup() raised {out['cleanup_exc']!r}; {desc}")
-    labels = sorted({ph["kind"] for ph in case["conns"]})
+    labels = sorted({ph["kind"] for ph in case["conns"]}) + (["slow-hook"] if case.get("hook_sleep") is not None else [])
     rec.case(case, running, labels)
 
 
@@ -519,7 +531,8 @@ def shutdown_cases(draw):
             ph["pre"] = pre if ph["d"] > 0 else 0.0  # d counts from the shutdown instant; d == 0: done before it
             if ph["d"] == 0.0:
                 ph["d"] = 0.0
-    return {"T": T, "conns": conns, "pre": pre, "hook_raises": draw(st.integers(0, 4)) == 0, "late_after_iters": draw(st.integers(3, 8))}  # cleanup() yields once before it stops accepting
+    return {"T": T, "conns": conns, "pre": pre, "hook_raises": draw(st.integers(0, 4)) == 0, "late_after_iters": draw(st.integers(3, 8)),
+            "hook_sleep": draw(st.sampled_from([None, None, 0.0, 0.0, 0.25, 1.0]))}  # cleanup() yields once before it stops accepting
 
 
 def unit_shutdown(rec: Rec, n: int, offset: int) -> None:
